@@ -104,7 +104,8 @@ CHECKS = {
         level_text=("Client role: 1-8 requests (Publish QoS 0/1/2, Subscribe, Unsubscribe, at most one Ping) are issued through the library Client to a fake server that acknowledges in a generated order, "
                     "duplicates PUBRECs, and for a generated subset forces the adverse interleaving: the sending goroutine is parked at the yield between writing and returning, the server's ack is sent and the "
                     "client's packet-handled event awaited, then the goroutine is released. Every PUBREC must be answered by a PUBREL with its id; each completion callback must fire exactly once, not before "
-                    "its terminal ack was sent, and all must have fired after a final flush round trip; QoS 0 completes inside Publish. Broker role: 2-3 raw publishers with overlapping ids, in-process "
+                    "its terminal ack was sent, and all must have fired after a final flush round trip; after every single acknowledgement a PINGREQ round trip cuts the history and each request whose ack and all earlier acks of its kind were sent must have completed; "
+                    "some requests are too large to be sent (the call fails: no completion, nothing blocked), some have no callback, SUBACKs refuse any subset of 1-3 filters; QoS 0 completes inside Publish. Broker role: 2-3 raw publishers with overlapping ids, in-process "
                     "publishes and a retained message towards a subscriber that withholds all acks: the ids of the unacknowledged PUBLISH packets must be non-zero and pairwise distinct. Sampling."),
         level_note=("Trusted: harness/ref/codec, the yield hooks *.after-write and the packet-handled event in /repo (build tag verif), the fake server. At most one PINGREQ outstanding (single unnumbered ping slot)."),
         rule=("rapid-generated cases; non-trivial (client role) = a forced ack-before-registration interleaving or acks in another order than the requests; (broker role) = >= 2 QoS>0 publishes in flight to the subscriber; distinct = FNV-64 of the case JSON"),
@@ -176,11 +177,12 @@ CHECKS = {
         level_note=("Trusted: harness/ref/codec (written from the specification, checked against the spec's and the repository's example packets). Inputs the library accepts leniently but the "
                     "strict reference rejects are outside the re-encode identity (counted only). Messages the setter API cannot express are checked on the decode/copy path only."),
         rule=("unit fields: rapid-generated strict-valid packets; non-trivial = a length at a listed boundary, or >= 4 filters/return codes, or a non-default flag combination; distinct = FNV-64 of "
-              "(type, remaining length, flags, id, field lengths, content hash). unit modify: decode a generated packet, apply 1-3 setter calls, compare with the reference encoding of the changed fields (non-trivial = a setter applied; setters include AddTopic of a new or a listed filter and RemoveTopic of a listed or an unlisted one). unit boundaries: enumerated table, distinct by construction. unit counter: one history per shard, non-trivial if it crossed a multiple of 65536"),
+              "(type, remaining length, flags, id, field lengths, content hash). unit modify: decode a generated packet, apply 1-3 setter calls, compare with the reference encoding of the changed fields (non-trivial = a setter applied; setters include AddTopic of a new or a listed filter and RemoveTopic of a listed or an unlisted one). unit accepted: every input of the C04 generator (valid packets, all single-site structured mutants, random bytes) that a decoder accepts, strict-valid or not: Len() == bytes written, the re-encoding is accepted by the same decoder with equal fields, and equals the input when the input is exactly one frame (non-trivial = accepted although the strict reference rejects it). unit boundaries: enumerated table, distinct by construction. unit counter: one history per shard, non-trivial if it crossed a multiple of 65536"),
         assumptions=["strings are printable ASCII (UTF-8 validity is never decisive)", "packet-id counter is process-global; no assumption about its start value"],
         units=[
             dict(name="fields", test="TestC03Fields", checks=(80000, 9000000), shards=(4, 14), timeout=(240, 3000)),
             dict(name="modify", test="TestC03Modify", checks=(40000, 9000000), shards=(4, 14), timeout=(240, 3000)),
+            dict(name="accepted", test="TestC03Accepted", checks=(60000, 9000000), shards=(4, 14), timeout=(240, 3000)),
             dict(name="boundaries", test="TestC03Boundaries", kind="enum", shards=(4, 14), timeout=(240, 1200)),
             dict(name="counter", test="TestC03Counter", kind="enum", shards=(2, 14)),
             dict(name="counter-concurrent", test="TestC03CounterConcurrent", kind="enum", shards=(2, 8), timeout=(240, 3000)),
@@ -296,10 +298,10 @@ CHECKS = {
         level_text=("Connect part (enumerated): CONNACK code 0-5 x SessionPresent, malformed CONNACKs, other packet types, close and silence until ConnectTimeout: Connect must return nil exactly for code 0, the "
                     "refusal code as its error for 1-5, an error otherwise, close the socket and leave no goroutine with a go-mqtt frame behind (census). Dispatch part (sampled): 1-4 Subscribe calls with 1-3 "
                     "filters and their own callbacks, SUBACK codes 0/1/2/0x80 per filter, inbound PUBLISH at QoS 0-2 on matching and non-matching topics with DUP repeats before PUBREL and duplicate PUBRELs, "
-                    "Unsubscribe calls, filler traffic; after every inbound step (cut by a PINGREQ the library answers) each request's callback must have been invoked exactly once if exactly one of its "
+                    "Unsubscribe calls, filler traffic, and reconnects of the same Client object (Disconnect + Connect, the server answers SessionPresent=0 and reuses packet identifiers, also of inbound QoS 2 exchanges that were left open); after every inbound step (cut by a PINGREQ the library answers) each request's callback must have been invoked exactly once if exactly one of its "
                     "granted, still subscribed filters matches the delivered topic (1..k times for k > 1 matching filters), never otherwise, with the delivered topic and payload; the client's acks are checked as in C02."),
         level_note=("Trusted: harness/ref/match, harness/ref/codec, the fake server. Filters and topics without empty levels (known finding empty-level of the shared topic tree is C06's). "
-                    "When k > 1 filters of ONE request match, 1..k invocations are accepted (per-subscription dispatch)."),
+                    "When k > 1 filters of ONE request match, 1..k invocations are accepted (per-subscription dispatch). After a reconnect the callbacks of requests made on the earlier connection may or may not see matching messages (left open by the statement); they never see non-matching ones. Client.ConnectTLS is not exercised (the statement names Client.Connect)."),
         rule=("unit connect: enumerated answers, non-trivial = anything but a plain code-0 CONNACK; unit dispatch: rapid-generated scripts, non-trivial = >= 2 subscribe requests separated by inbound traffic "
               "(one invoked, another not) or an unsubscribe of a held filter; distinct = FNV-64 of the case JSON"),
         assumptions=["one case at a time per process (goroutine census)", "the server never delivers a topic matched only by a filter it refused with 0x80 ... it may, and then no callback is expected"],
